@@ -1,0 +1,6 @@
+//go:build !verif
+
+package analysis
+
+// verifPhase is a no-op unless the library is built with the tag "verif" (see verif_hooks.go).
+func verifPhase(string, *FlattenOpts) {}
